@@ -139,6 +139,83 @@ func c13(c *Ctx) {
 			c.ValueIs(s, s.Val, "first-id-is-1", ConstInt(1))
 		}
 	})
+	c.Ob("settings-intake", "R2", "handleSettings: only an ACK is ignored; the limit applied is the frame's MAX_CONCURRENT_STREAMS value, and the 'unlimited' default is substituted only for a first SETTINGS frame that does not carry one; the quota update is scheduled whenever a limit is present", 5, func() {
+		hs := c.fn(tr, "http2Client.handleSettings")
+		isAck := CallRes(CalleeX("golang.org/x/net/http2", "SettingsFrame.IsAck"), 0)
+		ex := one(c, "executeAndPut in handleSettings", callsIn(hs, exec))
+		for _, r := range returnsOf(hs) {
+			if r.Block() == hs.Recover || instrDominates(ex, r) {
+				continue
+			}
+			c.MustFact(r, "ignored-only-when-ack", Truth(isAck, true))
+		}
+		c.MustFact(ex, "settings-applied-only-when-not-ack", Truth(isAck, false))
+		// the limit cell: captured by the per-setting closure (which stores the frame's value) and by the quota closure
+		var cell *ssa.Alloc
+		var perSetting *ssa.Function
+		for _, a := range hs.AnonFuncs {
+			for _, b := range a.Blocks {
+				for _, in := range b.Instrs {
+					st, ok := in.(*ssa.Store)
+					if !ok {
+						continue
+					}
+					if u, ok := st.Addr.(*ssa.UnOp); ok {
+						if fv, ok := u.X.(*ssa.FreeVar); ok && FieldLoad(c.field("golang.org/x/net/http2", "Setting", "Val"))(st.Val) && c.HasFact(st, CmpInt(FieldLoad(c.field("golang.org/x/net/http2", "Setting", "ID")), token.EQL, 3)) {
+							perSetting = a
+							for _, in2 := range instrsWhere(hs, func(in ssa.Instruction) bool { mc, ok := in.(*ssa.MakeClosure); return ok && mc.Fn == ssa.Value(a) }) {
+								for i, f2 := range a.FreeVars {
+									if f2 == fv {
+										cell, _ = in2.(*ssa.MakeClosure).Bindings[i].(*ssa.Alloc)
+									}
+								}
+							}
+						}
+					}
+				}
+			}
+		}
+		if !c.Expect(cell != nil && perSetting != nil, ex, hs, "limit-from-the-frame", "the MAX_CONCURRENT_STREAMS value of the frame is not recorded as the limit") {
+			return
+		}
+		isCell := func(v ssa.Value) bool { u, ok := v.(*ssa.UnOp); return ok && u.X == ssa.Value(cell) }
+		nDef := 0
+		for _, st := range storesTo(cell) {
+			if st.Parent() != hs {
+				continue
+			}
+			nDef++
+			// the default substitution
+			c.MustFact(st, "default-only-on-the-first-frame", Truth(ParamV("isFirst"), true))
+			c.MustFact(st, "default-only-without-a-limit-in-the-frame", IsNil(isCell))
+		}
+		c.Expect(nDef == 1, ex, hs, "one-default-substitution", "expected one substitution of the unlimited default")
+		for _, in := range instrsWhere(hs, func(in ssa.Instruction) bool {
+			st, ok := in.(*ssa.Store)
+			if !ok {
+				return false
+			}
+			u, ok := st.Addr.(*ssa.UnOp)
+			return ok && u.X == ssa.Value(cell)
+		}) {
+			c.ValueIs(in, in.(*ssa.Store).Val, "default-is-unlimited", ConstNum(4294967295))
+		}
+		// the quota update is appended whenever a limit is present
+		var quotaMC ssa.Instruction
+		for _, in := range instrsWhere(hs, func(in ssa.Instruction) bool {
+			mc, ok := in.(*ssa.MakeClosure)
+			return ok && len(storesToField(mc.Fn.(*ssa.Function), fQuota)) > 0
+		}) {
+			quotaMC = in
+		}
+		if c.Expect(quotaMC != nil, ex, hs, "quota-update-scheduled", "no quota update is scheduled for a new limit") {
+			c.MustFact(quotaMC, "quota-update-only-with-a-limit", NotNil(isCell))
+			if len(quotaMC.Block().Succs) == 1 {
+				qb := quotaMC.Block()
+				c.EnteredOnlyWhenExcept(qb.Succs[0], "quota-update-skipped-only-without-a-limit", func(p *ssa.BasicBlock) bool { return p == qb }, IsNil(isCell))
+			}
+		}
+	})
 	c.Ob("quota-arithmetic", "R7", "the quota is written only as quota-1 (admission), quota+1 (give-back) and quota+(new limit - old limit) with no clamp, the limit is replaced by the new limit in the same closure", 4, func() {
 		n := 0
 		for _, f := range quotaClosures {
